@@ -187,6 +187,50 @@ def reconnect_after_loss(loss: int, always: bool, wait: int, e1: int, prior: boo
 EVENTS = ["accept", "cer_known", "cea_ok", "cea_reject", "dpr_old", "gone_new", "gone_old", "err_new", "tick5", "tick31", "close_old", "conn_result_flip"]
 
 
+SPELL = [lambda x: x, lambda x: x.title(), lambda x: x.upper()]
+
+
+def redial_pending(cfg: int, ticks: int, refused: bool) -> bool:
+    """
+    pre: 0 <= cfg <= 2 and 1 <= ticks <= 3
+    post: _
+    """
+    hx.begin()
+    # a persistent peer (configured in lower / Capitalised / UPPER case) loses its connection; the reconnect wait elapses; the
+    # node dials; the CEA is slow (or the dial is refused and the wait starts again): however many timer rounds pass meanwhile,
+    # the node never holds two connections of its own to the peer, and a refused dial is not repeated before the wait is over
+    cfg, ticks = hx.concretize_range(cfg, 0, 3), hx.concretize_range(ticks, 1, 4)
+    refused = bool(hx.concretize(refused))
+    inputs = (cfg, ticks, refused)
+    saved = B.PEER_HOSTS[0]
+    try:
+        with hx.untraced():
+            B.PEER_HOSTS[0] = SPELL[cfg](saved)
+            h = H.Hist(init="fresh", persistent=True)
+            n, p = h.n, h.p
+            p.reconnect_wait = 5
+            n.cea_timeout = 100000
+            n.idle_timeout = 100000
+            h.ev_dial("ok")
+            h.ev_cea(2001)
+            h.ev_gone(h.newest())
+            WORLD.dialled.clear()
+            if refused:
+                WORLD.connect_plan.append("refused")
+            h.ev_tick(6)                               # the wait (5 s) is over: one dial
+            first = len(WORLD.dialled)
+            for _ in range(ticks):
+                h.ev_tick(1)                           # further timer rounds within the next wait / while the CEA is outstanding
+            mine = [sk for (t, a, sk) in WORLD.dialled if not sk.closed]
+            obs = (first, len(WORLD.dialled), len(mine))
+            exp = (1, 1, 0 if refused else 1)
+    except Exception as e:
+        return hx.fail(inputs, "raised %s: %s" % (type(e).__name__, str(e)[:80]))
+    finally:
+        B.PEER_HOSTS[0] = saved
+    return hx.check(inputs, obs, exp, "one dial when the reconnect wait is over, none while that connection is being established or the next wait runs")
+
+
 def history(ev: List[int]) -> bool:
     """
     pre: len(ev) == P["depth"] and all(0 <= e < len(EVENTS) for e in ev)
@@ -236,6 +280,8 @@ def specs(tier, seed, carve):
     out = [dict(id="dpr_step", fn="dpr_step", params={}, timeout=900, bound="inbound/outbound x READY/awaiting-DWA x with/without a pending request x {nothing, any of %d message kinds} after the DPR" % len(MSG_KINDS)),
            dict(id="reconnect_decision", fn="reconnect_decision", params={}, timeout=900,
                 bound="all values: persistent, always_reconnect, reconnect_wait 1..60, elapsed 0..200, 11 disconnect reasons, stopping, has-connection, addresses, ever-disconnected")]
+    out.append(dict(id="redial_pending", fn="redial_pending", params={}, timeout=300,
+                    bound="persistent peer configured in lower / Capitalised / UPPER case; connection lost; wait over; the dial is refused or its CEA is slow; 1..3 further timer rounds"))
     out.append(dict(id="reconnect_after_loss", fn="reconnect_after_loss", params={}, timeout=900,
                     bound="persistent peer, outbound connection lost by {peer gone, socket error, DPR then gone, watchdog timeout, node close, CEA rejected}; always_reconnect, reconnect_wait 1..60, elapsed 0..100 symbolic"))
     ne = len(EVENTS)
